@@ -239,6 +239,7 @@ func (ctx *_OpContextType) encodeRaw(as abi.As, arg *abi.AsArgument) (x uint32, 
 	case OpFormatType_2R_csr:
 		rd := ctx.regI(arg.Rd)
 		rj := ctx.regI(arg.Rs1)
+		assert(rj != 0 && rj != 1, "csrxchg: rj must not be $r0 or $r1 (csrrd/csrwr encodings)")
 		csr := uint32(arg.Imm) & 0x3FFF
 		x |= (csr << 10) | (rj << 5) | rd
 		return
